@@ -504,12 +504,12 @@ func worker(c *vf.Ctx, arg string) {
 	}
 	r := c.Rand(stream)
 	schemaClean := k%2 == 0
-	nLogs := c.Pick(70, 600)
+	nLogs := c.Pick(70, 450)
 	if mode == "short" {
-		nLogs = c.Pick(90, 800)
+		nLogs = c.Pick(90, 600)
 	}
 	if repl {
-		nLogs = c.Pick(50, 400)
+		nLogs = c.Pick(50, 300)
 	}
 	reruns := c.Pick(3, 6)
 	shrunkSigs := map[string]bool{}
